@@ -311,6 +311,9 @@ class MiniEval:
     if isinstance(e, ast.Name):
       if e.id in env:
         return env[e.id]
+      rx = self._regex_constant(f, e.id)
+      if rx is not None:
+        return rx
       r = self.ix.resolve(f.module, e, cls=f.cls, func=f)
       if isinstance(r, ClassInfo):
         return r
@@ -425,6 +428,17 @@ class MiniEval:
       fi = FuncInfo("<lambda>", f"{f.qualname}.<lambda>", f.module, ast.FunctionDef(name="<lambda>", args=e.args, body=[ast.Return(value=e.body)], decorator_list=[], lineno=e.lineno), f.cls, f)
       return ("closure", fi, env)
     raise NotConst(type(e).__name__)
+
+  def _regex_constant(self, f, name):
+    """a module-level `NAME = re.compile(<constant pattern>)`: the compiled pattern (the pattern text is a constant of the source)"""
+    import re as _re
+    from .regexrules import regex_bindings
+    cache = self.__dict__.setdefault("_rx_cache", {})
+    key = f.module.name
+    if key not in cache:
+      cache[key] = {k: v[0] for k, v in regex_bindings(self.ix, f.module).items() if "::" not in k and "." not in k}
+    pat = cache[key].get(name)
+    return _re.compile(pat) if pat is not None else None
 
   @staticmethod
   def _cmp(op, a, b):
@@ -571,6 +585,17 @@ class MiniEval:
           return Fraction(*args)
         except (TypeError, ValueError, ZeroDivisionError):
           raise Raised()
+    # the standard regex module applied to constants of the source
+    if isinstance(fn, ast.Attribute) and isinstance(fn.value, ast.Name) and fn.value.id == "re" and "re" not in env:
+      import re as _re
+      if fn.attr in ("compile", "escape") and len(args) == 1 and isinstance(args[0], str):
+        try:
+          return getattr(_re, fn.attr)(args[0])
+        except _re.error:
+          raise Raised()
+      if fn.attr == "sub" and len(args) == 3 and all(isinstance(a, str) for a in args):
+        return _re.sub(*args)
+      raise NotConst(f"re.{fn.attr}")
     # callee value
     callee = None
     recv = None
@@ -585,6 +610,36 @@ class MiniEval:
           return self.node_call(recv, fn.attr, args, kwargs, f, depth)
         if isinstance(recv, list):
           return self._list_method(recv, fn.attr, args)
+        import re as _re
+        if isinstance(recv, _re.Pattern):
+          if fn.attr in ("match", "fullmatch", "search") and len(args) == 1 and isinstance(args[0], str):
+            return getattr(recv, fn.attr)(args[0])
+          if fn.attr == "sub" and len(args) == 2 and isinstance(args[1], str):
+            repl = args[0]
+            if isinstance(repl, str):
+              return recv.sub(repl, args[1])
+            if isinstance(repl, tuple) and repl and repl[0] == "closure":
+              def _cb(m_, _r=repl):
+                v_ = self.call(_r[1], [m_], None, {k: v for k, v in _r[2].items()}, depth + 1)
+                if not isinstance(v_, str):
+                  raise NotConst("regex callback result")
+                return v_
+              return recv.sub(_cb, args[1])
+          raise NotConst(f"pattern.{fn.attr}")
+        if isinstance(recv, _re.Match):
+          if fn.attr in ("group", "groups", "start", "end", "span", "groupdict"):
+            try:
+              return getattr(recv, fn.attr)(*args)
+            except (IndexError, TypeError):
+              raise Raised()
+          raise NotConst(f"match.{fn.attr}")
+        if isinstance(recv, str):
+          if fn.attr in ("replace", "lower", "upper", "strip", "lstrip", "rstrip", "split", "startswith", "endswith", "join", "isspace", "isdigit", "find", "format", "splitlines", "zfill", "count", "index"):
+            try:
+              return getattr(recv, fn.attr)(*args)
+            except (TypeError, ValueError):
+              raise Raised()
+          raise NotConst(f"str.{fn.attr}")
         if isinstance(recv, set):
           if fn.attr in ("add", "discard", "update", "remove"):
             try:
